@@ -88,10 +88,18 @@ func (e *Engine) spawn(st *State, f FuncV, site string) {
 }
 
 func (e *Engine) spawnFunc(st *State, f FuncV, site string) {
+	if st.Th == nil && e.GoPolicy == "skip" {
+		e.Notes = append(e.Notes, "goroutine started at "+site+" is not executed (outside this check)")
+		return
+	}
 	panic(e.unsupported("goroutine creation inside code under test (gopool.Go) at " + site))
 }
 
 func (e *Engine) spawnGo(st *State, cc *ssa.CallCommon, fnv, recv Value, args []Value, site string) {
+	if st.Th == nil && e.GoPolicy == "skip" {
+		e.Notes = append(e.Notes, "goroutine started at "+site+" is not executed (outside this check)")
+		return
+	}
 	panic(e.unsupported("go statement inside code under test at " + site))
 }
 
@@ -846,7 +854,7 @@ func (e *Engine) composeGo(st *State, ev *Event, w smt.Term, gomem map[string]sm
 	if !ok {
 		if ev.GoObj.Kind == KChan {
 			cc := st.Heap[ev.GoObj].(*ChanContent)
-			cur = c.BV(uint64(len(cc.Buf)), 32)
+			cur = cc.Count
 			gomem[ev.GoKey+"/closed"] = c.Ite(cc.Closed, c.BV(1, 32), c.BV(0, 32))
 		} else {
 			v := e.getPath(st.Heap[ev.GoObj].(Value), ev.GoPath, nil)
